@@ -30,6 +30,14 @@ for fam, fdir in FAMILIES:
             replace=['Objects_Surface_local_value', 'Objects_NaturalCoordinate_get_surface_point'],
             outline_fp='all', defines={'FAM': fam, kdef: 1, 'WB_VEC_CAP': 2},
             expect_fail=['REACHABILITY-GUARD'], spurious_if_oracle_holds=True))
+UNITS.append(dict(
+    name='continental_plate_T_chapman', enforce='Features_ContinentalPlateModels_Temperature_Chapman_get_temperature', contracts='c05_area_temperature.c',
+    targets=[dict(tu='source/world_builder/features/continental_plate_models/temperature/chapman.cc',
+                  qual='WorldBuilder::Features::ContinentalPlateModels::Temperature::Chapman::get_temperature')],
+    stub=['Objects_Surface_local_value', 'Objects_NaturalCoordinate_get_surface_point'], nothrow=['Objects_NaturalCoordinate_get_surface_point'],
+    replace=['Objects_Surface_local_value', 'Objects_NaturalCoordinate_get_surface_point'],
+    outline_fp='all', defines={'FAM': 'ContinentalPlate', 'KIND_CHAPMAN': 1, 'WB_VEC_CAP': 2},
+    expect_fail=['REACHABILITY-GUARD'], spurious_if_oracle_holds=True))
 
 
 # ----------------------------------------------------------------------------- native replay oracle
@@ -52,6 +60,11 @@ def documented(kind, m, fmin, fmax, depth, old):
         new = m['temperature']
     elif kind == 'adiabatic':
         new = adiab(depth)
+    elif kind == 'chapman':
+        zt = max(fmin, m['min depth'])
+        tt = m['top temperature'] if m['top temperature'] >= 0 else adiab(zt)
+        k, q, A = m['thermal conductivity'], m['top heat flux'], m['heat generation per unit volume']
+        new = tt + (q / k) * (depth - zt) - A / (2 * k) * (depth - zt) ** 2
     elif kind == 'linear':
         zt, zb = max(fmin, m['min depth']), min(fmax, m['max depth'])
         tt = m['top temperature'] if m['top temperature'] >= 0 else adiab(zt)
@@ -77,7 +90,7 @@ def one_case(fdir, kind, m, fmin, fmax, depths, work):
     q = oracle.Q(world_text(fdir, fmin, fmax, [base, mm]), work)
     try:
         if q.construct_error:
-            return None
+            return dict(status='error', detail='world not constructed: %s' % q.construct_error)
         for d in depths:
             if not (fmin <= d <= fmax):
                 continue
@@ -109,6 +122,9 @@ def native_oracle(witness, work, search_seed=None):
         m = {'min depth': mmin, 'max depth': mmax, 'operation': rnd.choice(['replace', 'add', 'subtract'])}
         if kind == 'uniform':
             m['temperature'] = rnd.choice([300.0, 1234.5])
+        if kind == 'chapman':
+            m['top temperature'] = rnd.choice([293.15, -1, -1])
+            m['thermal conductivity'], m['top heat flux'], m['heat generation per unit volume'] = 2.5, 0.055, 0.9e-6
         if kind == 'linear':
             m['top temperature'] = rnd.choice([300.0, -1, 0.0])
             m['bottom temperature'] = rnd.choice([1300.0, -1])
